@@ -2229,13 +2229,20 @@ PREFIX (_translate) (region_type_t *region, int x, int y)
     box_type_t * pbox;
 
     GOOD (region);
-    region->extents.x1 = x1 = region->extents.x1 + x;
-    region->extents.y1 = y1 = region->extents.y1 + y;
-    region->extents.x2 = x2 = region->extents.x2 + x;
-    region->extents.y2 = y2 = region->extents.y2 + y;
-    
+
+    /* Widen before adding so that the sums cannot wrap */
+    x1 = (overflow_int_t)region->extents.x1 + x;
+    y1 = (overflow_int_t)region->extents.y1 + y;
+    x2 = (overflow_int_t)region->extents.x2 + x;
+    y2 = (overflow_int_t)region->extents.y2 + y;
+
     if (((x1 - PIXMAN_REGION_MIN) | (y1 - PIXMAN_REGION_MIN) | (PIXMAN_REGION_MAX - x2) | (PIXMAN_REGION_MAX - y2)) >= 0)
     {
+	region->extents.x1 = x1;
+	region->extents.y1 = y1;
+	region->extents.x2 = x2;
+	region->extents.y2 = y2;
+
         if (region->data && (nbox = region->data->numRects))
         {
             for (pbox = PIXREGION_BOXPTR (region); nbox--; pbox++)
@@ -2249,7 +2256,8 @@ PREFIX (_translate) (region_type_t *region, int x, int y)
         return;
     }
 
-    if (((x2 - PIXMAN_REGION_MIN) | (y2 - PIXMAN_REGION_MIN) | (PIXMAN_REGION_MAX - x1) | (PIXMAN_REGION_MAX - y1)) <= 0)
+    if (x2 <= PIXMAN_REGION_MIN || y2 <= PIXMAN_REGION_MIN ||
+	x1 >= PIXMAN_REGION_MAX || y1 >= PIXMAN_REGION_MAX)
     {
         region->extents.x2 = region->extents.x1;
         region->extents.y2 = region->extents.y1;
@@ -2258,15 +2266,10 @@ PREFIX (_translate) (region_type_t *region, int x, int y)
         return;
     }
 
-    if (x1 < PIXMAN_REGION_MIN)
-	region->extents.x1 = PIXMAN_REGION_MIN;
-    else if (x2 > PIXMAN_REGION_MAX)
-	region->extents.x2 = PIXMAN_REGION_MAX;
-
-    if (y1 < PIXMAN_REGION_MIN)
-	region->extents.y1 = PIXMAN_REGION_MIN;
-    else if (y2 > PIXMAN_REGION_MAX)
-	region->extents.y2 = PIXMAN_REGION_MAX;
+    region->extents.x1 = (x1 < PIXMAN_REGION_MIN) ? PIXMAN_REGION_MIN : x1;
+    region->extents.y1 = (y1 < PIXMAN_REGION_MIN) ? PIXMAN_REGION_MIN : y1;
+    region->extents.x2 = (x2 > PIXMAN_REGION_MAX) ? PIXMAN_REGION_MAX : x2;
+    region->extents.y2 = (y2 > PIXMAN_REGION_MAX) ? PIXMAN_REGION_MAX : y2;
 
     if (region->data && (nbox = region->data->numRects))
     {
@@ -2274,43 +2277,45 @@ PREFIX (_translate) (region_type_t *region, int x, int y)
 
         for (pbox_out = pbox = PIXREGION_BOXPTR (region); nbox--; pbox++)
         {
-            pbox_out->x1 = x1 = pbox->x1 + x;
-            pbox_out->y1 = y1 = pbox->y1 + y;
-            pbox_out->x2 = x2 = pbox->x2 + x;
-            pbox_out->y2 = y2 = pbox->y2 + y;
+            x1 = (overflow_int_t)pbox->x1 + x;
+            y1 = (overflow_int_t)pbox->y1 + y;
+            x2 = (overflow_int_t)pbox->x2 + x;
+            y2 = (overflow_int_t)pbox->y2 + y;
 
-            if (((x2 - PIXMAN_REGION_MIN) | (y2 - PIXMAN_REGION_MIN) |
-                 (PIXMAN_REGION_MAX - x1) | (PIXMAN_REGION_MAX - y1)) <= 0)
+            if (x2 <= PIXMAN_REGION_MIN || y2 <= PIXMAN_REGION_MIN ||
+		x1 >= PIXMAN_REGION_MAX || y1 >= PIXMAN_REGION_MAX)
             {
                 region->data->numRects--;
                 continue;
 	    }
 
-            if (x1 < PIXMAN_REGION_MIN)
-		pbox_out->x1 = PIXMAN_REGION_MIN;
-            else if (x2 > PIXMAN_REGION_MAX)
-		pbox_out->x2 = PIXMAN_REGION_MAX;
-
-            if (y1 < PIXMAN_REGION_MIN)
-		pbox_out->y1 = PIXMAN_REGION_MIN;
-            else if (y2 > PIXMAN_REGION_MAX)
-		pbox_out->y2 = PIXMAN_REGION_MAX;
+            pbox_out->x1 = (x1 < PIXMAN_REGION_MIN) ? PIXMAN_REGION_MIN : x1;
+            pbox_out->y1 = (y1 < PIXMAN_REGION_MIN) ? PIXMAN_REGION_MIN : y1;
+            pbox_out->x2 = (x2 > PIXMAN_REGION_MAX) ? PIXMAN_REGION_MAX : x2;
+            pbox_out->y2 = (y2 > PIXMAN_REGION_MAX) ? PIXMAN_REGION_MAX : y2;
 
             pbox_out++;
 	}
 
-        if (pbox_out != pbox)
+        if (region->data->numRects == 0)
         {
-            if (region->data->numRects == 1)
-            {
-                region->extents = *PIXREGION_BOXPTR (region);
-                FREE_DATA (region);
-                region->data = (region_data_type_t *)NULL;
-	    }
-            else
-	    {
-		pixman_set_extents (region);
-	    }
+            region->extents.x2 = region->extents.x1;
+            region->extents.y2 = region->extents.y1;
+            FREE_DATA (region);
+            region->data = pixman_region_empty_data;
+	}
+        else if (region->data->numRects == 1)
+        {
+            region->extents = *PIXREGION_BOXPTR (region);
+            FREE_DATA (region);
+            region->data = (region_data_type_t *)NULL;
+	}
+        else
+        {
+            /* Clamping can make vertically adjacent bands identical:
+             * rebuild the canonical form (and the extents) */
+            region->extents.x1 = region->extents.x2 = 0;
+            validate (region);
 	}
     }
 
